@@ -133,8 +133,7 @@ class MPRYGate(
             x1, x2 = get_indices(i, self.target_qubit, self.num_qudits)
             a = np.real(env_matrix[x1, x1] + env_matrix[x2, x2])
             b = np.real(env_matrix[x2, x1] - env_matrix[x1, x2])
-            theta = 2 * np.arccos(a / np.sqrt(a ** 2 + b ** 2))
-            theta *= -1 if b > 0 else 1
+            theta = -2 * np.arctan2(b, a)
             thetas[i] = theta
 
         return thetas
